@@ -71,8 +71,9 @@ PROPS = {
     },
     "C03": {
         "engine": "lease4",
-        "tests": [{"name": "TestC03", "quick": {"checks": 300, "shards": 3}, "thorough": {"checks": 400, "shards": 32, "timeout": 3000}}],
-        "rule": "C02's histories with hardware-address lengths uniform in 0..16 and hostnames biased to numeric-looking/NUL/invalid UTF-8/255-byte values; after EVERY step the sqlite file (and journal files if present) is copied and (1) read directly by the harness with database/sql and its own parser of the mac column, (2) reopened with a fresh Setup4, (3) probed with one DISCOVER per known client and one new client. Oracle: rows == model exactly (none lost, changed, extra, duplicated), restart succeeds, every client gets its address back, stored expiry >= floor(t_before_call + lease) - 1. Non-trivial: a crash point with a binding whose chaddr length is not 6, or a numeric-looking hostname. Distinct: FNV-64 of the case JSON.",
+        "tests": [{"name": "TestC03", "quick": {"checks": 300, "shards": 3}, "thorough": {"checks": 400, "shards": 32, "timeout": 3000}},
+                  {"name": "TestC03Expiry", "quick": {"checks": 3, "shards": 4}, "thorough": {"checks": 12, "shards": 16}, "shrinktime": "1s"}],
+        "rule": "C02's histories with hardware-address lengths uniform in 0..16 and hostnames biased to numeric-looking/NUL/invalid UTF-8/255-byte values; after EVERY step the sqlite file (and journal files if present) is copied and (1) read directly by the harness with database/sql and its own parser of the mac column, (2) reopened with a fresh Setup4, (3) probed with one DISCOVER per known client and one new client. Oracle: rows == model exactly (none lost, changed, extra, duplicated), restart succeeds, every client gets its address back, stored expiry >= floor(t_before_call + lease) - 1. TestC03Expiry adds histories in which 2.1 s of wall-clock time pass between a client's first lease and its renewal, so that the stored expiry must move. Non-trivial: a crash point with a binding whose chaddr length is not 6, or a numeric-looking hostname, or a renewal after time has passed. Distinct: FNV-64 of the case JSON.",
         "assumptions": ["crash points are the quiescent points between datagrams (file copied while no request is in flight); torn sqlite pages are not injected",
                         "the database lives on tmpfs when /dev/shm exists (fsync is a no-op there)"],
     },
@@ -158,8 +159,9 @@ PROPS = {
     },
     "C15": {
         "engine": "srv",
-        "tests": [{"name": "TestC15", "quick": {"checks": 10000, "shards": 1}, "thorough": {"checks": 100000, "shards": 8}, "count_free": True}],
-        "rule": "every run enumerates the whole table giaddr x ciaddr in {0, 192.0.2.7, 10.10.10.200, 169.254.7.9, 255.255.255.255} x broadcast flag x DISCOVER/REQUEST x synthetic plugin action {offer an address, leave yiaddr unset, turn the reply into a NAK} x listener {bound to the interface with a 6-byte hardware address, unbound with the request arriving on it, unbound with a non-existent receiving index} (900 rows), then rapid draws the same dimensions with random addresses, yiaddr and chaddr. Oracle: the statement's cascade written independently (giaddr:67, NAK broadcast, ciaddr:68, flag broadcast, else one layer-2 frame with Ethernet dst = chaddr, IPv4 dst = yiaddr, UDP 67->68, DHCP payload = the reply, on the right interface); broadcast/link-local/L2 pinned to the bound or receiving interface, routable destinations not pinned. Every row is non-trivial; distinct: FNV-64 of the case JSON.",
+        "tests": [{"name": "TestC15", "quick": {"checks": 10000, "shards": 1}, "thorough": {"checks": 100000, "shards": 8}, "count_free": True},
+                  {"name": "TestC15Seq", "quick": {"checks": 3000, "shards": 1}, "thorough": {"checks": 30000, "shards": 8}}],
+        "rule": "every run enumerates the whole table giaddr x ciaddr in {0, 192.0.2.7, 10.10.10.200, 169.254.7.9, 255.255.255.255} x broadcast flag x DISCOVER/REQUEST x synthetic plugin action {offer an address, leave yiaddr unset, turn the reply into a NAK} x listener {bound to the interface with a 6-byte hardware address, unbound with the request arriving on it, unbound with a non-existent receiving index} (900 rows), then rapid draws the same dimensions with random addresses, yiaddr and chaddr; TestC15Seq draws sequences of 2..5 rows (biased to the link-level row) arriving on / bound to different interfaces with a 6-byte hardware address and handled by the same process, so state left by one datagram cannot leak into the next. Oracle: the statement's cascade written independently (giaddr:67, NAK broadcast, ciaddr:68, flag broadcast, else one layer-2 frame with Ethernet dst = chaddr, IPv4 dst = yiaddr, UDP 67->68, DHCP payload = the reply, on the right interface); broadcast/link-local/L2 pinned to the bound or receiving interface, routable destinations not pinned. Every row is non-trivial; distinct: FNV-64 of the case JSON.",
         "assumptions": ["an unbound listener always receives interface information (listen4/listen6 enable it on unbound sockets), so (unbound, no control message) is never generated",
                         "replies are observed at the capture hook: the WriteTo call of the listener and the serialised Ethernet frame of sendEthernet; the sockets themselves are not exercised",
                         "the layer-2 path needs an interface with a 6-byte hardware address; it is looked up at run time"] + ["layer-2 rows use hlen 6; for other lengths the Ethernet serialiser refuses and nothing is sent, which is recorded but not asserted"],
